@@ -1,6 +1,6 @@
 """C07 - ConstraintKMeans produces clusters of equal size."""
 from vf import loader
-from vf.core import Clause, Outcome, Violation, require, np_scalars, with_np
+from vf.core import Clause, Outcome, Violation, require, np_scalars, with_np, with_sk
 
 import numpy as np
 from hypothesis import strategies as st
@@ -178,10 +178,10 @@ def _large_cases(draw, tier="quick"):
 
 
 CLAUSES = [
-    Clause("python-O", check_optimized, strategy=lambda tier: _optimized_cases(tier), quick=32, thorough=400, quick_shards=16, thorough_shards=16,
+    Clause("python-O", check_optimized, strategy=lambda tier: with_sk(_optimized_cases(tier)), quick=32, thorough=400, quick_shards=16, thorough_shards=16,
            doc="6-10 fit/predict cases per evaluation re-run in a child interpreter started with -O (assert statements not executed)"),
-    Clause("large", check_fit, strategy=lambda tier: with_np(_large_cases(tier)), quick=48, thorough=800, quick_shards=16, thorough_shards=16,
+    Clause("large", check_fit, strategy=lambda tier: with_sk(with_np(_large_cases(tier))), quick=48, thorough=800, quick_shards=16, thorough_shards=16,
            doc="the same statement on batches / training sets of several hundred rows (sizes crossing 256, 512, 1024)"),
-    Clause("fit-predict", check_fit, strategy=lambda tier: with_np(_cases(tier)), quick=3200, thorough=60000, quick_shards=16,
+    Clause("fit-predict", check_fit, strategy=lambda tier: with_sk(with_np(_cases(tier))), quick=3200, thorough=60000, quick_shards=16,
            doc="sizes after fit, label range, finite centres, n_iter_, balanced / nearest predictions"),
 ]
